@@ -157,10 +157,10 @@ def run(ck: Check):
         log(f"graph {names}: {len(g.states)} states {len(g.edges)} edges {time.time() - t_start:.0f}s")
     if ck.thorough:
         # deeper, without the dump
-        for group in (["simple", "stateful", "nocache"], ["mem"], ["hdf-shared"], ["hdf-snapshot"], ["jacinrun"],
-                      ["jacinrun-hdf"], ["db"]):
-            ck.tlc("Lifecycle", cfg(group, 3, 3, methods=("dumps",)), workers=4, timeout=175, require_actions=ACTIONS[:4])
-            log(f"deep {group} {time.time() - t_start:.0f}s")
+        for group, s_ in ((["simple", "stateful", "nocache"], 3), (["mem"], 3), (["hdf-shared"], 3),
+                          (["hdf-snapshot", "jacinrun", "jacinrun-hdf", "db"], 2)):
+            ck.tlc("Lifecycle", cfg(group, 3, s_, methods=("dumps",)), workers=4, timeout=175, require_actions=ACTIONS[:4])
+            log(f"deep {group} (3,{s_}) {time.time() - t_start:.0f}s")
 
     # ---- 3. replay on the real objects
     child = rp.Child()
@@ -233,12 +233,12 @@ def run(ck: Check):
         #     (every full cache costs a round trip to the multiprocessing manager: mem / hdf are slow)
         core = next(e for e in entries if e.name == "Sellar1")
         replay(core, cat.JSON, "simple", None)
-        replay(core, cat.JSON, "hdf-snapshot", 2500 if T else 150)
-        replay(core, cat.JSON, "hdf-shared", 1500 if T else 120)
+        replay(core, cat.JSON, "hdf-snapshot", 1500 if T else 150)
+        replay(core, cat.JSON, "hdf-shared", 1000 if T else 120)
         replay(core, cat.JSON, "mem", 300 if T else 40)      # stops at Pickle while D10 stands
-        replay(core, cat.SIMPLE, "simple", None if T else 300)
+        replay(core, cat.SIMPLE, "simple", 3000 if T else 300)
         if T:
-            replay(core, cat.SIMPLE, "hdf-snapshot", 1500)
+            replay(core, cat.SIMPLE, "hdf-snapshot", 600)
         # 3b. every class of the catalogue x cache type x grammar type: a sample of the tour
         rest = [e for e in entries if e is not core]
         slots = []
@@ -260,7 +260,7 @@ def run(ck: Check):
             n = {"simple": 6, "stateful": 8, "jacinrun": 6, "jacinrun-hdf": 3, "hdf-snapshot": 3, "mem": 1,
                  "nocache": 12, "db": 30}[conf]
             if T:
-                n *= 12
+                n *= 6
             if e.name == "AnalyticDiscipline" or e.name.startswith("Sobieski"):
                 n *= 4   # classes with their own exclusion list / __setstate__
             replay(e, gt, conf, max(1, n // e.cost))
